@@ -213,6 +213,8 @@ def gen_cases(ctx):
             else:
                 a, k = [str(n - i) for i in range(n)], [str(2 * j) for j in range(m)]
             c["alternatives"], c["criteria"], c["labels"] = a, k, kind
+        elif t < 0.3:
+            gen.narrow_dtypes(ctx.rng, c)
         cases.append(c)
     return cases
 
